@@ -67,6 +67,8 @@ _OOO_NAMESPACES = {
 _NUMBER_COLUMNS_REPEATED = "{" + _OOO_NAMESPACES["table"] + "}number-columns-repeated"
 _TEXT_PREFIX = "{" + _OOO_NAMESPACES["text"] + "}"
 _TABLE_PREFIX = "{" + _OOO_NAMESPACES["table"] + "}"
+#: Maximum value accepted for repeat counts in ODS documents (spreadsheets have at most 2**20 rows and 2**14 columns).
+_MAX_ODS_REPEAT_COUNT = 2 ** 20
 #: Elements of a table that can contain rows in addition to the table itself.
 _TABLE_ROW_CONTAINER_TAGS = (
     _TABLE_PREFIX + "table-header-rows",
@@ -236,9 +238,14 @@ def _ods_text(element, location):
         if child.tag == _TEXT_PREFIX + "s":
             count_text = child.attrib.get(_TEXT_PREFIX + "c", "1")
             try:
-                result += " " * int(count_text)
+                count = int(count_text)
             except ValueError:
                 raise errors.DataFormatError("text:c is %s but must be an integer" % _compat.text_repr(count_text), location)
+            if count > _MAX_ODS_REPEAT_COUNT:
+                raise errors.DataFormatError(
+                    "text:c is %s but must be at most %d" % (_compat.text_repr(count_text), _MAX_ODS_REPEAT_COUNT), location
+                )
+            result += " " * count
         elif child.tag == _TEXT_PREFIX + "tab":
             result += "\t"
         elif child.tag == _TEXT_PREFIX + "line-break":
@@ -324,13 +331,22 @@ def ods_rows(source_ods_path, sheet=1):
                         "table:number-columns-repeated is %s but must be at least 1" % _compat.text_repr(repeated_text),
                         location,
                     )
+                if repeated_count > _MAX_ODS_REPEAT_COUNT:
+                    raise errors.DataFormatError(
+                        "table:number-columns-repeated is %s but must be at most %d"
+                        % (_compat.text_repr(repeated_text), _MAX_ODS_REPEAT_COUNT),
+                        location,
+                    )
             except ValueError:
                 raise errors.DataFormatError(
                     "table:number-columns-repeated is %s but must be an integer" % _compat.text_repr(repeated_text),
                     location,
                 )
             text_ps = _findall(table_cell, "text:p", namespaces=_OOO_NAMESPACES)
-            cell_value = "\n".join(_ods_text(text_p, location) for text_p in text_ps)
+            try:
+                cell_value = "\n".join(_ods_text(text_p, location) for text_p in text_ps)
+            except RecursionError:
+                raise errors.DataFormatError("text of cell is nested too deeply", location)
             row.extend([cell_value] * repeated_count)
             location.advance_cell(repeated_count)
         yield row
